@@ -157,6 +157,7 @@ type Profile struct {
 	Off        map[string]bool // features switched off (known findings, or outside the property's domain)
 	Sanitize   bool            // generate sanitizer / validator calls (C02)
 	Enter      bool            // instrument function entries with enter(id) (C12/C18)
+	Wild       bool            // C07: goroutines, recover, unsafe, recursive types, bodyless functions...
 }
 
 type gen struct {
